@@ -1,5 +1,5 @@
 ---------------------------- MODULE MC_FriProtocol ----------------------------
 EXTENDS FriProtocol, Json, TLC
 \* every finished behaviour is a strategy for the replay: what the prover committed and sent, with the model's verdict
-Emit == phase = "done" => PrintT(ToJson([f0 |-> f0, layers |-> layers, openings |-> openings, rem |-> remSent, verdict |-> verdict]))
+Emit == phase = "done" => PrintT(ToJson([f0 |-> f0, layers |-> layers, openings |-> openings, rem |-> remSent, remc |-> remC, hit |-> hit, verdict |-> verdict]))
 =============================================================================
